@@ -166,11 +166,13 @@ fn mangled_pick(rng: &mut Rng, items: &[&str]) -> String {
     case_mangle(rng, s)
 }
 
+/// Changes the case of ASCII letters only: the property says "case-insensitive field terms" without naming a folding, the crate
+/// folds ASCII, and a reference that demanded Unicode folding would ask for more than is stated.
 fn case_mangle(rng: &mut Rng, s: &str) -> String {
     match rng.below(3) {
         0 => s.to_string(),
-        1 => s.to_uppercase(),
-        _ => s.to_lowercase(),
+        1 => s.to_ascii_uppercase(),
+        _ => s.to_ascii_lowercase(),
     }
 }
 
@@ -186,7 +188,18 @@ pub fn rand_atom(rng: &mut Rng, uris: &[String], with_fields: bool) -> Q {
         let u = if uris.is_empty() { "mv2://docs/a".to_string() } else { rng.pick_ref(uris).clone() };
         Q::Uri(case_mangle(rng, &u))
     } else if roll < 75 {
-        Q::Scope(mangled_pick(rng, SCOPES))
+        if uris.is_empty() || rng.chance(1, 2) {
+            Q::Scope(mangled_pick(rng, SCOPES))
+        } else {
+            // a prefix of one of the documents' URIs cut at a random character, sometimes followed by one or two other
+            // letters: its byte length then falls anywhere inside the (possibly multi-byte) URIs it is compared with
+            let u = rng.pick_ref(uris);
+            let n = u.chars().count();
+            let k = rng.usize(1, n);
+            let mut v: String = u.chars().take(k).collect();
+            for _ in 0..rng.below(3) { v.push(rng.pick(&['a', 'z', 'x'])); }
+            Q::Scope(v)
+        }
     } else if roll < 81 {
         Q::Track(mangled_pick(rng, TRACKS))
     } else if roll < 88 {
@@ -272,7 +285,7 @@ fn rand_doc_frame(rng: &mut Rng, uris: &[String]) -> (Frame, String) {
 
 pub fn doc_uris(rng: &mut Rng) -> Vec<String> {
     (0..6)
-        .map(|i| format!("{}{}{}", rng.pick(SCOPES), rng.pick(&["Alpha", "beta", "GAMMA"]), i))
+        .map(|i| format!("{}{}{}", rng.pick(SCOPES), rng.pick(&["Alpha", "beta", "GAMMA", "été", "naïve", "漢字"]), i))
         .collect()
 }
 
